@@ -31,3 +31,9 @@ Theorem C08_release_rule_is_the_code's :
     is_correct_position (Some p) len ty = Ok (gen_is_correct_position (Z.of_nat p) (Z.of_nat len) ty).
 Proof. exact gen_is_correct_position_eq. Qed.
 Print Assumptions C08_release_rule_is_the_code's.
+
+(* the job an ordered buffer hands to the machine behind it (head for FIFO/DUMMY, last for LIFO, none for FLEX) is the code's:
+   gen_next_job is regenerated from buffer_type_utils.get_next_job_from_buffer on every run *)
+Theorem C08_next_job_is_the_code's : forall b ty, gen_next_job (b_store b) ty = get_next_job_from_buffer b ty.
+Proof. exact gen_next_job_eq. Qed.
+Print Assumptions C08_next_job_is_the_code's.
